@@ -39,7 +39,6 @@ extern int verif_thrown;
   do {                                                                               \
     __CPROVER_assert((((unsigned)(VERIF_ALLOWED)) >> (kind)) & 1u,                   \
                      "throw-kind " #kind " allowed here, thrown at " site);         \
-    verif_thrown = (kind);                                                           \
     __CPROVER_assume(0);                                                             \
   } while (0)
 #define VERIF_CANARY(msg) __CPROVER_assert(0, "canary: " msg)
